@@ -56,7 +56,7 @@ def run_parser_model(ctx, props, cbfail_ok=True):
         name = "pmc_%d%s" % (i, tag)
         cfgp = os.path.join(d, name + ".cfg")
         open(cfgp, "w").write(
-            "CONSTANTS MaxTx = %d  MaxCalls = %d  MaxAvail = %d  AutoDestroy = %s  FixD4 = FALSE  TraceMode = FALSE\n"
+            "CONSTANTS MaxTx = %d  MaxCalls = %d  MaxAvail = %d  AutoDestroy = %s  FixD4 = TRUE  TraceMode = FALSE\n"
             " CbFail = {%s}\n Known <- KnownSet\nSPECIFICATION Spec\nINVARIANTS %s TypeOK\nVIEW View\nCHECK_DEADLOCK FALSE\n"
             % (mt, mc, ma, "TRUE" if ad else "FALSE", ", ".join('"%s"' % x for x in cf), " ".join(invs)))
         r = vlib.run_tlc(ctx, "HtpParserMC", cfgp, workers=4 if ctx.quick else 8, timeout=600 if ctx.quick else 5000, xmx="6g" if ctx.quick else "16g",
@@ -114,7 +114,7 @@ def run_driver_liveness(ctx):
     def one(i):
         mt, qu, su, ma, ad = cfgs[i]
         cfgp = os.path.join(d, "live_%d.cfg" % i)
-        open(cfgp, "w").write("CONSTANTS MaxTx = %d  MaxCalls <- NoCallBound  MaxAvail = %d  AutoDestroy = %s  FixD4 = FALSE  TraceMode = FALSE\n CbFail = {}\n Known = {}\n QUnits = %d  SUnits = %d\n"
+        open(cfgp, "w").write("CONSTANTS MaxTx = %d  MaxCalls <- NoCallBound  MaxAvail = %d  AutoDestroy = %s  FixD4 = TRUE  TraceMode = FALSE\n CbFail = {}\n Known = {}\n QUnits = %d  SUnits = %d\n"
                               "SPECIFICATION FairDSpec\nINVARIANT DrvTypeOK\nPROPERTY CallerProgress\nCHECK_DEADLOCK FALSE\n" % (mt, ma, "TRUE" if ad else "FALSE", qu, su))
         return vlib.run_tlc(ctx, "HtpDriver", cfgp, workers=16 if ctx.quick else 8, timeout=1200 if ctx.quick else 6000, xmx="12g", name="live_%d" % i, cwd=d)
     res = vlib.pmap(one, range(len(cfgs)), nproc=2)
